@@ -62,3 +62,44 @@ package store
 //@ lemma K2_infoVsPosition C12: forall r string, t1 string, t2 string, s string :: ident(t1) && ident(t2) ==> !hasPrefix(infoKey(r, t1), posPrefix(r)) && !hasPrefix(posKeyS(r, t2, s), r + "/task_info/")
 // K3 tenant isolation: for roots where neither is a '/'-boundary prefix of the other, no key of r2 has a scan prefix of r1
 //@ lemma K3_tenantIsolation C12: forall r1 string, r2 string, t string, s string :: ident(t) && !hasPrefix(r2 + "/", r1 + "/") && !hasPrefix(r1 + "/", r2 + "/") ==> !hasPrefix(posKeyS(r2, t, s), posPrefix(r1)) && !hasPrefix(infoKey(r2, t), r1 + "/task_info/")
+
+// ---- C12 / C11: transactional task deletion ---------------------------------------------------------
+//@ func DeleteTask
+//@   props C12 C11
+//@   requires factory != nil
+//@   ensures [no-delete-outside-the-transaction] directDeletes == old(directDeletes)
+//@   ensures [success-means-both-deleted-and-committed] err == nil ==> txnBegins == old(txnBegins) + 1 && txnDeletes == old(txnDeletes) + 2 && commitNilCalls == old(commitNilCalls) + 1 && commitErrCalls == old(commitErrCalls)
+//@   ensures [begun-transaction-is-finished-exactly-once] txnBegins != old(txnBegins) ==> (commitErrCalls == old(commitErrCalls) + 1 && commitNilCalls == old(commitNilCalls)) || (commitNilCalls == old(commitNilCalls) + 1 && commitErrCalls == old(commitErrCalls))
+//@   ensures [commit-only-after-both-deletes] commitNilCalls == old(commitNilCalls) + 1 ==> txnDeletes == old(txnDeletes) + 2
+//@   ensures [commit-at-most-once] commitNilCalls <= old(commitNilCalls) + 1 && txnBegins <= old(txnBegins) + 1
+//@   ensures [no-transaction-no-delete] txnBegins == old(txnBegins) ==> txnDeletes == old(txnDeletes) && commitNilCalls == old(commitNilCalls) && commitErrCalls == old(commitErrCalls)
+//@   ensures metaPuts == old(metaPuts)
+//@   panics never
+
+// ---- C11: guarded state update ------------------------------------------------------------------------
+// lo.Contains (samber/lo source): membership
+//@ trusted func github.com/samber/lo.Contains
+//@   params collection element
+//@   ensures result == (exists i int :: 0 <= i && i < len(collection) && collection[i] == element)
+//@   modifies nothing
+
+//@ func UpdateTaskState
+//@   props C11 C12 C06
+//@   requires taskInfoStore != nil
+//@   ensures [at-most-one-record-written] metaPuts == old(metaPuts) || metaPuts == old(metaPuts) + 1
+//@   ensures [error-writes-nothing-or-the-write-failed] err == nil ==> metaPuts == old(metaPuts) + 1
+//@   ensures [written-record-has-the-new-state] metaPuts == old(metaPuts) + 1 ==> as(lastMetaPut, "*meta.TaskInfo").State == newState && as(lastMetaPut, "*meta.TaskInfo").Reason == reason && lastMetaPutTxn == nil
+//@   ensures directDeletes == old(directDeletes) && txnDeletes == old(txnDeletes)
+//@   panics never
+
+// ---- C12 / C05: read-modify-write of one channel entry; dropped entries are frozen -----------------------
+//@ func UpdateTaskCollectionPosition
+//@   props C12 C05
+//@   requires taskPositionStore != nil && taskID != ""
+//@   ensures [at-most-one-record-written] metaPuts == old(metaPuts) || metaPuts == old(metaPuts) + 1
+//@   ensures [success-writes-the-record] err == nil ==> metaPuts == old(metaPuts) + 1
+//@   ensures [channel-entry-is-the-new-position-unless-frozen] metaPuts == old(metaPuts) + 1 && position != nil ==> pChannelName in as(lastMetaPut, "*meta.TaskCollectionPosition").Positions && (as(lastMetaPut, "*meta.TaskCollectionPosition").Positions[pChannelName] == position || as(lastMetaPut, "*meta.TaskCollectionPosition").Positions[pChannelName].Dropped)
+//@   ensures [op-entry-is-the-new-position-unless-frozen] metaPuts == old(metaPuts) + 1 && opPosition != nil ==> pChannelName in as(lastMetaPut, "*meta.TaskCollectionPosition").OpPositions && (as(lastMetaPut, "*meta.TaskCollectionPosition").OpPositions[pChannelName] == opPosition || as(lastMetaPut, "*meta.TaskCollectionPosition").OpPositions[pChannelName].Dropped)
+//@   ensures [record-names-the-task] metaPuts == old(metaPuts) + 1 ==> as(lastMetaPut, "*meta.TaskCollectionPosition").TaskID == taskID
+//@   ensures directDeletes == old(directDeletes) && txnDeletes == old(txnDeletes)
+//@   panics never
